@@ -20,6 +20,7 @@ from . import plan as planmod
 VERIF = os.path.dirname(os.path.dirname(os.path.abspath(__file__)))
 CHECK = os.path.join(VERIF, "check")
 FINDINGS = os.path.join(VERIF, "findings", "known_findings.json")
+REPLAYS = os.environ.get("VERIF_REPLAY_DIR") or os.path.join(VERIF, "replays")
 
 
 def _merge(dst, src):
@@ -280,7 +281,7 @@ def main(mod, argv=None):
     for e in agg["errors"][:5]:
         harness_errors.append("run index %s seed %s: %s" % (e.get("index"), e.get("seed"), e["error"]))
         if e.get("plan") is not None:
-            path = os.path.join(VERIF, "replays", "%s-error-%s.json" % (mod.PROP, e.get("seed")))
+            path = os.path.join(REPLAYS, "%s-error-%s.json" % (mod.PROP, e.get("seed")))
             planmod.save(e["plan"], path)
             harness_errors.append("  plan saved to %s" % path)
     if agg["det_bad"]:
@@ -320,7 +321,7 @@ def main(mod, argv=None):
         except Exception:
             small = f["plan"]
             print("NOTE: minimisation failed, reporting the unminimised plan\n" + traceback.format_exc(limit=3))
-        path = os.path.join(VERIF, "replays", "%s-%s-%s.json" % (mod.PROP, sig, f["seed"]))
+        path = os.path.join(REPLAYS, "%s-%s-%s.json" % (mod.PROP, sig, f["seed"]))
         small = dict(small)
         small["_found"] = {"seed": f["seed"], "index": f["index"], "tier": a.tier, "verif_seed": base,
                            "invariant": sig}
